@@ -63,6 +63,28 @@ def run(chk):
         out2 = json.loads(vlib.harness("gensfacts", "--curve", c, "--cap", cap, "--parties", parties).stdout)
         if out2["digest_G"] != facts["digest_G"] or out2["digest_H"] != facts["digest_H"]:
             chk.violation("gens-process-%s" % c, {"curve": c}, "generator table differs between two processes")
+    # process lives: one process derives tables and Pedersen bases for several curves in turn (MC_Process enumerates every order of at
+    # most 3 / 4 uses); each use must give the pinned bases and the digests of a fresh single-curve process
+    cfgp = chk.path("proc.cfg")
+    open(cfgp, "w").write('SPECIFICATION PSpec\nCONSTANTS\n  Curves = {"secq256k1", "zorro", "curve25519"}\n  MaxLen = %d\nINVARIANT PInv\nINVARIANT Emit\nCHECK_DEADLOCK FALSE\n' % (3 if q else 4))
+    lives = [b["life"] for b in vlib.behaviours_from(vlib.tlc_mc(chk, "MC_Process.tla", cfgp, workers=4)["out"])]
+    single = {c: json.loads(vlib.harness("gensfacts", "--curve", c, "--cap", 8, "--parties", 2).stdout) for c in vlib.REAL_CURVES}
+    import concurrent.futures as cf
+
+    def life_run(life):
+        return life, json.loads(vlib.harness("gensfacts", "--curve", ",".join(life) + ("," if len(life) == 1 else ""), "--cap", 8, "--parties", 2).stdout)
+
+    with cf.ThreadPoolExecutor(max_workers=12) as ex:
+        for life, facts in ex.map(life_run, [l for l in lives if len(l) >= 2]):
+            chk.count_case(["process-life", life])
+            for k, (c, f) in enumerate(zip(life, facts)):
+                want = single[c]
+                for fld in ("digest_G", "digest_H", "B", "B_blinding"):
+                    pin = pinned["%s-%d-%d" % (c, cap, parties)].get(fld) if fld in ("B", "B_blinding") else want[fld]
+                    if f[fld] != want[fld] or f[fld] != pin:
+                        chk.violation("gens-process-life-%s-%d" % ("-".join(life), k), {"life": life, "use": k, "curve": c, "field": fld, "observed": f[fld], "fresh_process": want[fld]},
+                                      "%s of %s derived as use %d of the process life %s differs from a fresh process / the pinned value" % (fld, c, k, life))
+                        break
     # (B1) the composed machine: table histories x byte-level adversary through System's prover and verifier (MC_Library)
     vlib.library_mc(chk, probes=("NV_AcceptedAfterIncrease",))
     # (B3) recorded lives of generator tables (both roles of random sessions on toy curves): every stored table after new / increase_capacity /
@@ -78,7 +100,7 @@ def run(chk):
              "operations, checks HistoryIndependent and ViewPartyMajor on the model, and prints each history with the expected capacity after every "
              "step and the expected content of every view G(n,m)/H(n,m), 0 <= n <= capacity, 0 <= m <= parties; each is executed on the real tables "
              "(secq256k1, zorro, curve25519, toy79) and compared entry by entry with a freshly built maximal table. Distinctness, non-identity, "
-             "prime order and the digests pinned from the reference revision are checked on tables of %d x %d. Recorded table lives of random sessions on toy31723 / toy79, and longer table-only lives on secq256k1, zorro, curve25519, are validated against Library.tla (one generator function per trace file). distinct = distinct (curve, history)"
+             "prime order and the digests pinned from the reference revision are checked on tables of %d x %d. Process lives (every order of at most 3 / 4 uses of the three curves within one process, MC_Process) must reproduce the pinned bases and a fresh process's tables. Recorded table lives of random sessions on toy31723 / toy79, and longer table-only lives on secq256k1, zorro, curve25519, are validated against Library.tla (one generator function per trace file). distinct = distinct (curve, history)"
              % (mx[0], mx[1], mx[2], cap, parties),
         assumptions=["Chain(kind, party, i) is identified with entry i of a freshly built table of maximal capacity; its absolute value is pinned by digest",
                      "view preconditions n <= capacity, m <= party capacity"],
